@@ -315,9 +315,16 @@ def check_view(spec, ctx):
             if not cds_inside:
                 ctx.label("cds_outside_chunk")
                 # (e) chromosome-level CDS description is kept (to_dict/guid compared above)
+            cl_ = [(max(b[0], cs), min(b[1], ce)) for b in o["cds"] if max(b[0], cs) < min(b[1], ce)]
+            clip_tie = bool(o.get("cds_overlapped")) and (len({a for a, _ in cl_}) < len(cl_) or len({b for _, b in cl_}) < len(cl_))
+            if clip_tie:
+                # the chunk clips two overlapping CDS blocks to remainders that tie on start or end: their 5'->3' order is not
+                # something a Location represents (C01 F1 / C03 F25) - the codon view of such a window is not compared
+                ctx.label("chunk_clips_overlap_to_a_tie(skipped)")
             if B.cds is not None and A.cds is not None:
                 ctx.eq("transcript:cds_guid", str(B.cds.guid), str(A.cds.guid))
-                check_cds_view(ctx, A.cds, B.cds, cspec, cs, ce, g, "transcript_cds", cst=cst)
+                if not clip_tie:
+                    check_cds_view(ctx, A.cds, B.cds, cspec, cs, ce, g, "transcript_cds", cst=cst)
         Bp = A.liftover_to_parent_or_seq_chunk_parent(PB)
         ctx.eq("transcript:relifted_to_dict", norm_dict(Bp.to_dict()), norm_dict(B.to_dict()))
     elif kind == "gene":
@@ -345,11 +352,37 @@ def check_view(spec, ctx):
         for fa, fb, fs in zip(A.feature_intervals, B.feature_intervals, o["features"]):
             check_interval_view(ctx, fa, fb, fs["blocks"], fs["strand"], cs, ce, g, "fc_feature")
     elif kind == "collection":
-        A, B = mkcollection(o, PA), mkcollection(o, PB)
+        ob = dict(o, start=spec["bounds"][0], end=spec["bounds"][1]) if spec.get("bounds") else o
+        A, B = mkcollection(ob, PA), mkcollection(ob, PB)
         ctx.nt("collection_on_chunk")
         da, db = norm_dict(A.to_dict()), norm_dict(B.to_dict())
-        # the collection's own bounds are documented to be inferred from the parent (chunk bounds)
-        ctx.eq("collection:bounds", (db["start"], db["end"]), (cs, ce))
+        # the collection's own bounds are documented to be inferred from the parent (chunk bounds) unless given explicitly
+        ctx.eq("collection:bounds", (db["start"], db["end"]), tuple(spec["bounds"]) if spec.get("bounds") else (cs, ce))
+        if spec.get("bounds"):
+            ctx.label("collection_with_explicit_bounds_on_chunk")
+            if spec["bounds"][0] > cs:
+                ctx.label("collection_starts_inside_chunk")
+        if spec.get("query"):
+            # the same range query asked of both twins: same members, and every member reads the same bases
+            def members(c):
+                out = {}
+                for ch in c.iter_children():
+                    for kid in ch.iter_children() if hasattr(ch, "iter_children") else []:
+                        try:
+                            out[str(kid.guid)] = str(kid.get_spliced_sequence())
+                        except BioCantorException as e:
+                            out[str(kid.guid)] = "EXC:" + type(e).__name__
+                return out
+            qs, qe = spec["query"]
+            outs = []
+            for X in (A, B):
+                try:
+                    r = X.query_by_position(qs, qe, completely_within=False)
+                    outs.append(("ok", (r.start, r.end), members(r), str(r.get_reference_sequence())))
+                except (BioCantorException, ValueError) as e:
+                    outs.append(("exc", type(e).__name__))
+            ctx.eq("collection:query_same_on_chunk", outs[1], outs[0], extra={"query": [qs, qe]})
+            ctx.label("collection_queried_on_both_twins")
         for k in ("start", "end"):
             da.pop(k), db.pop(k)
         ctx.eq("collection:to_dict_without_member_guids", strip_guids(db), strip_guids(da))
@@ -394,6 +427,9 @@ def strat_view(draw, tier="quick"):
         cs, ce = 0, n
     elif mode == 1:
         cs, ce = lo, hi
+    elif kind == "collection" and mode in (2, 3, 4, 5):
+        # a chunk that contains every member with room on both sides (so that explicit collection bounds can start inside it)
+        cs, ce = draw(st.integers(0, lo)), draw(st.integers(hi, n))
     elif mode == 2 and kind != "collection":
         # miss: before or after
         if lo >= 2 and draw(st.booleans()):
@@ -405,6 +441,13 @@ def strat_view(draw, tier="quick"):
         cs = draw(st.integers(0, n - 1))
         ce = draw(st.integers(cs + 1, n))
     sp = {"kind": kind, "obj": o, "genome": g, "chunk": [cs, ce]}
+    if kind == "collection" and cs <= lo and hi <= ce:
+        if draw(st.booleans()):
+            sp["bounds"] = [draw(st.integers(cs, lo)), draw(st.integers(hi, ce))]
+        blo, bhi = sp.get("bounds") or (cs, ce)
+        if bhi - blo >= 2 and draw(st.booleans()):
+            qs = draw(st.integers(blo, bhi - 1))
+            sp["query"] = [qs, draw(st.integers(qs + 1, bhi))]
     sp["chunk_idiom"] = draw(st.sampled_from(["api", "api", "docstring"]))
     if draw(st.integers(0, 3)) == 0:
         # low-complexity chromosome: windows shifted by a multiple of the repeat unit hold the same bases
